@@ -55,6 +55,7 @@ def make (c):
     if 'corpus' in c:
         # the repository's antennas (wires only, sources and loads by location), moved as a whole
         spec = corpus.located (corpus.make (c, 5))
+        rng  = corpus.rng_of (c, 5)
         if spec ['media'] is not None:
             spec ['media'] = [[0.0, 0.0, 0.0, None]]
             spec.pop ('boundary', None)
